@@ -233,6 +233,77 @@ def classify(tu, fn, body, enums, sizes):
     return info
 
 
+BYTE_POINTEES = ("uint8_t", "int8_t", "char", "unsigned char", "signed char", "void")
+WIDE = {"uint16_t": 2, "int16_t": 2, "uint32_t": 4, "int32_t": 4, "uint64_t": 8, "int64_t": 8, "float": 4, "double": 8,
+        "unsigned short": 2, "short": 2, "unsigned int": 4, "int": 4, "unsigned long": 8, "long": 8}
+
+
+def pointee(t):
+    return (t or "").replace("const ", "").replace("volatile ", "").strip().rstrip("*").strip()
+
+
+def typed_sites(fname, node):
+    """Memory accesses through an lvalue of a wider-than-byte type obtained by casting a
+    pointer whose static type only promises byte alignment (a `uint8_t*`/`char*`/`void*`
+    or a pointer to one of the library's byte-array header structs): `*(uint32_t*)p`,
+    `*((uint16_t*)p + i)`, `((uint32_t*)p)[i]`.  Returns [(function, wide type, source type)]."""
+    out = []
+    wide_vars = {}      # local pointer variables holding such a cast: name -> (wide type, source type)
+
+    def note_vars(n):
+        if isinstance(n, tuple):
+            if n and n[0] == "decl" and n[4] is not None:
+                t = cast_under0(n[4])
+                if t is not None:
+                    wide_vars[n[1]] = t
+            if n and n[0] == "bin" and n[1] == "=" and n[2][0] == "var":
+                t = cast_under0(n[3])
+                if t is not None:
+                    wide_vars[n[2][1]] = t
+            for c in n:
+                note_vars(c)
+
+    def cast_under0(e):
+        while e[0] == "bin" and e[1] in ("+", "-"):
+            e = e[2]
+        if e[0] == "ptrcast" and len(e) > 3:
+            wide = pointee(e[1])
+            pt = pointee(e[3])
+            if wide in WIDE and WIDE[wide] > 1 and (pt in BYTE_POINTEES or pt.startswith("Avtp_") or pt.startswith("struct avtp_") or pt.startswith("struct Avtp_")):
+                return (e[1], e[3] or "?")
+        return None
+
+    note_vars(node)
+
+    def cast_under(e):
+        # the pointer expression being dereferenced: look through `+`/`-` index arithmetic
+        while e[0] == "bin" and e[1] in ("+", "-"):
+            e = e[2] if e[2][0] in ("ptrcast", "bin") or e[3][0] not in ("ptrcast",) else e[3]
+        return e
+
+    def byteish(src):
+        pt = pointee(src)
+        return pt in BYTE_POINTEES or pt.startswith("Avtp_") or pt.startswith("struct avtp_") or pt.startswith("struct Avtp_")
+
+    def walk(n):
+        if isinstance(n, tuple):
+            target = None
+            if n and n[0] == "un" and n[1] == "*":
+                target = cast_under(n[2])
+            elif n and n[0] == "index":
+                target = cast_under(n[1])
+            if target is not None and target[0] == "ptrcast" and len(target) > 3:
+                wide = pointee(target[1])
+                if wide in WIDE and WIDE[wide] > 1 and byteish(target[3]):
+                    out.append([fname, target[1], target[3] or "?"])
+            elif target is not None and target[0] == "var" and target[1] in wide_vars:
+                out.append([fname, wide_vars[target[1]][0], wide_vars[target[1]][1]])
+            for c in n:
+                walk(c)
+    walk(node)
+    return out
+
+
 def writes_through(node, params):
     """Pointer parameters through which the function body (syntactically) stores: an
     assignment whose target dereferences an expression derived from the parameter, a
@@ -292,8 +363,10 @@ def writes_through(node, params):
             return roots(lhs[3])
         if lhs[0] == "member":
             return target_roots(lhs[3])
-        if lhs[0] in ("ptrcast", "icast", "cast"):
-            return target_roots(lhs[-1] if lhs[0] != "icast" else lhs[3])
+        if lhs[0] == "ptrcast":
+            return target_roots(lhs[2])
+        if lhs[0] in ("icast", "cast"):
+            return target_roots(lhs[3])
         return set()
 
     def walk(n):
@@ -620,6 +693,7 @@ def extract_file(path):
             continue
         info = classify(tu, n, body, enums, sizes)
         out["functions"].append(info)
+        out.setdefault("typed_sites", []).extend(typed_sites(n["name"], tu.stmt(body)))
         collect_local_statics(n, body, out["statics"])
     # the field enum: parameter type of the generic getter
     for fn in out["functions"]:
@@ -798,10 +872,12 @@ def translate(force=False):
         if n.get("kind") == "VarDecl" and f == up:
             q = n["type"]["qualType"]
             utils["statics"].append({"name": n["name"], "type": q, "const": q.startswith("const "), "where": "file"})
+    utils["typed_sites"] = []
     for f, n, body in cast.functions_with_bodies(tu, ""):
         if f == up:
             utils["functions"].append(n["name"])
             collect_local_statics(n, body, utils["statics"])
+            utils["typed_sites"].extend(typed_sites(n["name"], tu.stmt(body)))
     gen = {"source_hash": sh, "repo": REPO, "probe": PROBE, "probe_per_header": per_header,
            "files": files, "utils": utils}
     import emit
